@@ -384,6 +384,9 @@ def ladder(offset: int) -> List[int]:
             if 0 <= e < 55237:
                 pts.add(e)
     pts |= {(128 - offset) // 2, (256 - offset) // 2 + 1, 55000}
+    # beyond the surrogate gap the keys are valid again (astral code points): 16-bit boundaries of key and of exponent, 10**5,
+    # and the last code point.  Raising is acceptable up there, another monomial is not.
+    pts |= {0xE000 - offset, 60000, 0xFFFF - offset, 0x10000 - offset, 0xFFFF, 0x10000, 70000, 100000, 0x10FFFF - offset}
     return sorted(pts)
 
 
@@ -452,6 +455,38 @@ def body(ctx: H.BaseCtx):
                         ctx.expect_model(q.reshape(p.shape) if q.size == p.size else q, mp, "text round trip (encoding=%s)" % enc, rtol=1e-9)
                     finally:
                         os.unlink(path)
+        elif op == "reject":
+            # exponents without a storage key (negative, in the surrogate gap, past the last code point, past 32 bits): every
+            # constructor either raises or returns exactly that monomial -- never a wrapped-around one
+            e = case["e"]
+            coef = p.coefficients[0]
+            routes = {
+                "polynomial(dict)": lambda: numpoly.polynomial({(e, 1): coef, (0, 0): 1}, names=("q0", "q1")),
+                "polynomial_from_attributes": lambda: numpoly.polynomial_from_attributes([[e, 1], [0, 0]], [coef, 1], names=("q0", "q1")),
+                "ndpoly(int64 exponent array)": lambda: numpoly.ndpoly(exponents=numpy.array([[e, 1], [0, 0]], dtype=numpy.int64), shape=(), names=("q0", "q1")),
+                "ndpoly.from_attributes": lambda: numpoly.ndpoly.from_attributes([[e, 1], [0, 0]], [coef, 1], names=("q0", "q1")),
+            }
+            for rname, f in routes.items():
+                try:
+                    r = f()
+                except Exception:
+                    continue
+                if rname.startswith("ndpoly("):
+                    got = [tuple(int(v) for v in row) for row in r.exponents.tolist()]
+                    if sorted(got) != sorted([(e, 1), (0, 0)]):
+                        ctx.fail("key", "%s with exponent %d stores exponents %s" % (rname, e, got))
+                    continue
+                if e > 0:
+                    cm = M.flat_items(mp)[0].coeff((("q0", 1),))  # the operand's only coefficient, as the model sees it
+                    exp = M.mp_array([M.MP({(("q0", e), ("q1", 1)): cm}) + M.MP.const(1)], ())
+                if e <= 0:
+                    cm = M.flat_items(mp)[0].coeff((("q0", 1),))
+                    if bool(cm != 0):
+                        ctx.fail("key", "%s accepts the negative exponent %d and returns %s" % (rname, e, [tuple(int(v) for v in row) for row in r.exponents.tolist()]))
+                    else:  # a zero coefficient: the term may be dropped before it is ever stored
+                        ctx.expect_model(r, M.mp_array([M.MP.const(1)], ()), "%s with exponent %d and a zero coefficient" % (rname, e))
+                else:
+                    ctx.expect_model(r, exp, "%s with exponent %d" % (rname, e))
         elif op == "pickle":
             q = pickle.loads(pickle.dumps(p))
             ctx.expect_model(q, mp, "pickle")
@@ -528,6 +563,7 @@ def gen_cases(tier: str, seed: int) -> List[Dict]:
         {"id": "C20-K4-text-header", "op": "K4", "part": "K4"},
     ]
     lad = ladder(extract_offset())
+    off0 = extract_offset()
     n = 0
 
     def add(fn, spec, spec2=None, **kw):
@@ -557,6 +593,8 @@ def gen_cases(tier: str, seed: int) -> List[Dict]:
         for k in (2, 3):
             if e * k <= 60000 and (not quick or rng.random() < 0.6):
                 add("pow", P("a", ("q0",), [[e], [0]] if e * k < 400 else [[e]]), k=k)
+    for e in (-1, -60, 0xD800 - off0, 0xDFFF - off0, 0x110000 - off0, 2 ** 31, 2 ** 32, 2 ** 32 + 5, 2 ** 32 - 1):
+        add("reject", P("a", ("q0",), [[1]]), e=e)
     # text files: key characters that are one byte in latin1 but not valid UTF-8 on their own, and the first ones latin1 cannot write
     off = extract_offset()
     for e in sorted({128 - off, 100, 0xC3 - off, 0xE9 - off, 255 - off, 256 - off, 300}):
